@@ -25,7 +25,7 @@ res["worktree_head"] = sh("git rev-parse --short HEAD")[1].strip()
 rc, out = sh(f"git apply {sd}/patch.diff"); res["applies"] = rc == 0
 if rc != 0:
     print(out); print(json.dumps(res)); sys.exit(1)
-rc, out = sh(meta["existing_tests_cmd"].replace("/tmp/mut-%s" % pid, wt)); res["existing_tests_pass_with_patch"] = rc == 0
+rc, out = sh(meta["existing_tests_cmd"].replace("/tmp/mut2-%s" % pid, wt).replace("/tmp/mut-%s" % pid, wt)); res["existing_tests_pass_with_patch"] = rc == 0
 if rc != 0: res["existing_tests_tail"] = out[-1500:]
 demo_dst = meta.get("demo_dst")
 demo_cmd = meta["demo_cmd"]
